@@ -213,6 +213,43 @@ def refusal_cases() -> list[tuple[str, str]]:
                     if not R.vec_equal(r.components, pair.components):
                         msg = f"{fname}{combo} differs from the pairwise result"
                 out.append((f"refusal:{fname}:{'+'.join(combo)}", msg))
+    # the methods of a vector keep it in its own coordinate system: substitution, simplification,
+    # the way through a sympy vector and back
+    kk = sp.Symbol("kk")
+    for nm, cs in systems.items():
+        for n in (1, 2, 3):
+            comps = gen("a", n)
+            V = Vector(comps, cs)
+            derived = {"subs": lambda: V.subs(comps[0], kk), "subs-dict": lambda: V.subs({comps[0]:
+                kk}), "simplify": lambda: V.simplify()}
+            if nm.startswith("cart"):
+                derived["sympy-round-trip"] = lambda: Vector.from_sympy_vector(V.to_sympy_vector(), cs)
+            for mname, mk in derived.items():
+                key = f"method:{mname}:{nm}:{n}"
+                try:
+                    W = mk()
+                except Exception as ex:  # pylint: disable=broad-except
+                    out.append((key, f"{mname} raised {type(ex).__name__}: {ex}"))
+                    continue
+                want = [c.subs(comps[0], kk) for c in comps] if mname.startswith("subs") else comps
+                msg = ""
+                if W.coordinate_system is not cs:
+                    msg = f"{mname} moved a vector of {nm} into another coordinate system"
+                elif not R.vec_equal(W.components, want):
+                    msg = f"{mname} changed the components: {W.components}"
+                else:
+                    # it still combines with its own system only
+                    other = Vector(gen("b", n), systems["cart1" if nm != "cart1" else "cart2"])
+                    try:
+                        dot_vectors(W, other)
+                        msg = f"vector after {mname} accepted with a vector of another system"
+                    except (ValueError, TypeError):
+                        pass
+                    try:
+                        dot_vectors(W, Vector(gen("b", n), cs))
+                    except (ValueError, TypeError) as ex:
+                        msg = f"vector after {mname} refused with a vector of its own system: {ex}"
+                out.append((key, msg))
     # default coordinate system of Vector() is one shared Cartesian instance
     A, B = Vector(gen("a", 2)), Vector(gen("b", 3))
     try:
